@@ -3,6 +3,7 @@ CONSTANTS
   MaxPipelines = 3
   DqConfigs = {"a", "b"}
   M_DeadQueueOnCopy = TRUE
+  M_LenCheckedBeforeTypeRemoved = TRUE
   D_DqConfigOnRegistryEntry = FALSE
 INVARIANTS DeadQueueIffDeclared DeadQueueIsOwnModuloDeviation Export
 CHECK_DEADLOCK FALSE
